@@ -56,6 +56,19 @@ def config(name):
     elif base == 'mlsdc':
         desc['sweeper_params']['num_nodes'] = [3, 2]
         desc['space_transfer_class'] = IdentityTransfer
+    elif base == 'mlsdc_equid':
+        # the same hierarchy as 'mlsdc' (node counts, quadrature type) on another node family
+        desc['sweeper_params']['num_nodes'] = [3, 2]
+        desc['sweeper_params']['node_type'] = 'EQUID'
+        desc['space_transfer_class'] = IdentityTransfer
+    elif base == 'mlsdc_flex':
+        # a sweep-dependent preconditioner on the fine level, two fine sweeps per iteration, predictor with a fine sweep:
+        # the coefficients the last sweep leaves behind must not enter the next step / the next run
+        desc['sweeper_params']['num_nodes'] = [3, 2]
+        desc['sweeper_params']['QI'] = ['MIN-SR-FLEX', 'LU']
+        desc['level_params']['nsweeps'] = [2, 1]
+        desc['space_transfer_class'] = IdentityTransfer
+        cp['predict_type'] = 'fine_only'
     elif base == 'pfasst':
         P = 3
         desc['sweeper_params']['num_nodes'] = [3, 2]
@@ -114,7 +127,7 @@ class RejectFirstAttempt(ConvergenceController):
             S.status.restart = True
 
 
-FIXED = ['sdc', 'sdcs', 'lobatto', 'mlsdc', 'pfasst', 'mssdc', 'rk', 'hooks', 'restarts', 'sdc/random', 'pfasst/random']
+FIXED = ['sdc', 'sdcs', 'lobatto', 'mlsdc', 'mlsdc_equid', 'mlsdc_flex', 'pfasst', 'mssdc', 'rk', 'hooks', 'restarts', 'sdc/random', 'pfasst/random']
 ALL = FIXED + ['adaptive']
 
 
@@ -331,7 +344,7 @@ def run(rep, tier):
         'continuation time = end time of the last step as logged by the first part (the float the controller itself accumulated)',
         'adaptive configuration only takes part in run() (the re-run / split clauses of the property are for fixed step sizes)',
     ]
-    names = ALL if tier == 'thorough' else ['sdc', 'lobatto', 'pfasst', 'mssdc', 'hooks', 'restarts', 'rk', 'sdc/random', 'adaptive']
+    names = ALL if tier == 'thorough' else ['sdc', 'lobatto', 'mlsdc', 'mlsdc_equid', 'mlsdc_flex', 'pfasst', 'mssdc', 'hooks', 'restarts', 'sdc/random', 'adaptive']
     depth = 4 if tier == 'thorough' else 3
     refs = dict(zip(ALL, common.pmap(reference, ALL, nproc=min(8, common.NPROC))))
     # the reference itself must be reproducible: second subprocess for two configurations
